@@ -38,6 +38,8 @@
 (*     data arrives for an id it no longer knows: class server-recreates-closed-stream of C10); D7 when data and the      *)
 (*     peer's close of the same stream are handled in one drain the callback goroutine (started through gopool) finds    *)
 (*     the stream half-closed and never calls OnData (C20's finding); the opposite order is possible in the code.        *)
+(*  D8 OpenStream on a shut-down session (fixed code) blocks on shutdownLock while the teardown lambda is in progress:      *)
+(*     TryOpen is only enabled outside the teardown.                                                                      *)
 (*  D5 the buffer-manager reference is per end ("held"/"released"); whether the mapping goes away depends on the other    *)
 (*     holders in the same process and is decided by the census of the harness.                                           *)
 (* Constant Atomic = TRUE restricts the scheduler to run every procedure to completion (or until it blocks): these are    *)
@@ -185,7 +187,10 @@ CbRelease(s) ==
 \* OpenStream once the session is shut down: reads shutdownErr under shutdownLock and falls back to ErrSessionShutdown
 \* while Close is between its CAS and the store of shutdownErr (fix a49166e; before it the result was (nil, nil)).
 \* FixedOpen = FALSE models the code before the fix (regression lead: ErrorKnown is then violated).
-TryOpen == /\ Start /\ Op /\ shutdown = 1 /\ lastOpen = "none"
+\* D8: the fixed OpenStream takes shutdownLock, which the teardown lambda holds from its first to its last step - also
+\* while it waits for a running callback: the call returns only when the teardown is not in progress.
+InTeardown == pc["loop"] \in {"t_conn", "t_table", "t_stream", "t_wait", "t_bm", "t_q"}
+TryOpen == /\ Start /\ Op /\ shutdown = 1 /\ lastOpen = "none" /\ (FixedOpen => ~InTeardown)
            /\ lastOpen' = IF serr = "nil" /\ ~FixedOpen THEN "nilnil" ELSE "err"
            /\ kf' = IF serr = "nil" /\ ~FixedOpen THEN kf \cup {"open-nil-nil"} ELSE kf
            /\ UNCHANGED <<shutdown, serr, shutCh, pc, ret, lambdas, batch, conn, link, hup, inbox, flag, st, inTable,
